@@ -9,8 +9,36 @@ from harness.refmodel import to_index
 ANNOT = {"SelfAdjoint": cola.SelfAdjoint, "PSD": cola.PSD, "Unitary": cola.Unitary, "Stiefel": cola.Stiefel}
 
 
+CTX = None  # the running shard's Ctx (set by harness/shard.py): every array handed to cola is guarded by its write sanitizer
+
+
 def build(node, owned=None):
-    """Build the operator.  ``owned`` (optional list) collects every caller-owned array handed to cola."""
+    """Build the operator.  ``owned`` (optional list) collects every caller-owned array handed to cola.  With CTX set, the
+    arrays are also registered with the write sanitizer (whatever the monitor calls next must leave their bytes alone)."""
+    lst = [] if owned is None else owned
+    start = len(lst)
+    op = _build(node, lst)
+    if CTX is not None and getattr(CTX, "auto_guard", True):
+        CTX.guard(*lst[start:])
+    return op
+
+
+def layout(A, node):
+    """Memory layout of a caller-owned matrix, decided by the leaf's seed: mostly row-major, sometimes column-major, sometimes
+    a non-contiguous view of a larger buffer (the values are the same)."""
+    r = int(node.get("seed", 0)) % 7
+    if A.ndim != 2 or A.size == 0 or node.get("layout") == "C":
+        return A
+    if r == 3:
+        return np.asfortranarray(A)
+    if r == 5:
+        big = np.zeros((2 * A.shape[0], 2 * A.shape[1]), dtype=A.dtype)
+        big[::2, ::2] = A
+        return big[::2, ::2]
+    return A
+
+
+def _build(node, owned=None):
     k = node["k"]
     via = node.get("via", "ctor")
 
@@ -23,7 +51,7 @@ def build(node, owned=None):
         A = P.arrays(node)["A"]
         if node.get("int_dtype"):  # integer-valued payload handed over in an integer dtype (as in the library's docstrings)
             A = A.astype(np.int64)
-        A = own(A)
+        A = own(layout(A, node))
         return cola.lazify(A) if via == "fn" else ops.Dense(A)
     if k == "Generic":
         A = own(P.arrays(node)["A"])
@@ -67,33 +95,33 @@ def build(node, owned=None):
         a = P.arrays(node)
         return ops.Hessian(a["f"], own(a["x"]))
     if k == "Transpose":
-        A = build(node["arg"], owned)
+        A = _build(node["arg"], owned)
         return A.T if via == "fn" else ops.Transpose(A)
     if k == "Adjoint":
-        A = build(node["arg"], owned)
+        A = _build(node["arg"], owned)
         return A.H if via == "fn" else ops.Adjoint(A)
     if k == "NoDispatch":
-        return cola.no_dispatch(build(node["arg"], owned))
+        return cola.no_dispatch(_build(node["arg"], owned))
     if k == "Annot":
-        return ANNOT[node["name"]](build(node["arg"], owned))
+        return ANNOT[node["name"]](_build(node["arg"], owned))
     if k == "Scaled":
-        A = build(node["arg"], owned)
+        A = _build(node["arg"], owned)
         c = P.as_scalar(node["c"])
         return c * A if node.get("side", "l") == "l" else A * c
     if k == "Gram":
-        A = build(node["arg"], owned)
-        A2 = A if node.get("same", True) else build(node["arg"], owned)  # merely equal, not identical
+        A = _build(node["arg"], owned)
+        A2 = A if node.get("same", True) else _build(node["arg"], owned)  # merely equal, not identical
         f = node["form"]
         pair = {"TA": lambda: (A.T, A2), "HA": lambda: (A.H, A2), "AT": lambda: (A, A2.T)}.get(f, lambda: (A, A2.H))()
         # optional further factors before/after the pair (a product that merely *contains* a Gram pair)
-        Ms = [build(c, owned) for c in node.get("head", [])] + list(pair) + [build(c, owned) for c in node.get("tail", [])]
+        Ms = [_build(c, owned) for c in node.get("head", [])] + list(pair) + [_build(c, owned) for c in node.get("tail", [])]
         if node.get("via", "fn") == "ctor" and len(Ms) > 2:
             return ops.Product(*Ms)
         if node.get("assoc") == "pair-first" and len(Ms) > 2:  # (A^H A) @ B, H @ (A^H A)
             out = pair[0] @ pair[1]
-            for M in reversed([build(c, owned) for c in node.get("head", [])]):
+            for M in reversed([_build(c, owned) for c in node.get("head", [])]):
                 out = M @ out
-            for M in [build(c, owned) for c in node.get("tail", [])]:
+            for M in [_build(c, owned) for c in node.get("tail", [])]:
                 out = out @ M
             return out
         out = Ms[0]
@@ -101,7 +129,7 @@ def build(node, owned=None):
             out = out @ M
         return out
     if k == "Sliced":
-        A = build(node["arg"], owned)
+        A = _build(node["arg"], owned)
         s0 = to_index(node["slices"][0], A.shape[0])
         s1 = to_index(node["slices"][1], A.shape[1])
         s0, s1 = own(s0), own(s1)
@@ -114,10 +142,10 @@ def build(node, owned=None):
         for c in node["args"]:
             key = json.dumps(c, sort_keys=True)
             if key not in cache:
-                cache[key] = build(c, owned)
+                cache[key] = _build(c, owned)
             Ms.append(cache[key])
     else:
-        Ms = [build(c, owned) for c in node["args"]]
+        Ms = [_build(c, owned) for c in node["args"]]
     if k == "Product":
         if via == "fn":
             out = Ms[0]
